@@ -140,6 +140,11 @@ def features():
         {'name': 'OptSwitch', 'body': [F('id', 'char'), F('k', 'Kind', optional='true'), SW('k', CASE('A', F('q', 'char', optional='true')), CASE(None, default=True))]},
         {'name': 'OptSwitchData', 'body': [F('id', 'char'), F('n', 'char', optional='true'), SW('n', CASE('1', F('q', 'char', optional='true')), CASE(None, F('z', 'short', optional='true'), default=True))]},
         {'name': 'OptSwitchEnumData', 'body': [F('k', 'Kind', optional='true'), SW('k', CASE('B'), CASE(None, F('z', 'short', optional='true'), default=True))]},
+        # a chunked section that holds only struct-typed members (their strings are sanitised all the same)
+        {'name': 'ChunkOfStructs', 'body': [F('id', 'char'), CH(F('n', 'Named'), F('p', 'PadEnc'), A('ps', 'Named', length='2')), F('after', 'string', length='2')]},
+        # struct-typed fields whose class has no named field at all
+        {'name': 'Magic', 'body': [F(None, 'string', 'EO', length='2'), F(None, 'char', '9')]},
+        {'name': 'HoldsFieldless', 'body': [F('id', 'char'), F('m', 'Magic'), F('d', 'OnlyDummy'), A('ms', 'Magic', length='2')]},
         # two sibling chunked sections in one class
         {'name': 'TwoSections', 'body': [F('id', 'char'), CH(F('a', 'string'), BR, F('n', 'char')), F('mid', 'short'), CH(F('b', 'string'))]},
         {'name': 'ArrOfArr', 'body': [L('rows_count', 'char'), A('rows', 'Rest', length='rows_count')] if False else [L('rows_count', 'char'), A('rows', 'Named', length='rows_count')]},
@@ -195,6 +200,7 @@ def literals():
         {'name': 'Quoted', 'body': [F('q', 'string', 'a"b', length='3'), F('w', 'string', 'a\\nb', length='4'), F(None, 'string', 'x\\"y', length='4'),
                                     F('p', 'encoded_string', "it's", length='4', padded='true'), F('tail', 'char')]},
         {'name': 'LitDummy', 'body': [D('char', '01')]},
+        {'name': 'Spaced', 'body': [F('a', 'string', 'EO  v2', length='6'), F(None, 'string', 'x   y', length='5'), F('b', 'encoded_string', 'p  q', length='4'), F('t', 'char')]},
         # documentation text (<comment>) becomes docstrings: whatever characters it holds, the emitted module must stay valid Python
         {'name': 'Documented', 'comment': 'A "quoted" word, a back\\slash, three quotes """ and a trailing quote "',
          'body': [dict(F('a', 'char'), comment='ends with a backslash \\'), dict(F('b', 'short'), comment='escapes: \\x41 \\N{DASH} \\u00e9 \\1 \\'),
